@@ -1,5 +1,5 @@
 SPECIFICATION Spec
 CONSTANTS
-  Families = {"A1", "B", "C1"}
+  Families = {"A1", "B", "C1", "E"}
 PROPERTY DescriptionTrue
 CHECK_DEADLOCK FALSE
